@@ -52,12 +52,13 @@ Malformed == -2
 \* Sequences of DIDs
 
 Range(s) == {s[i] : i \in DOMAIN s}
-Distinct(s) == \A i, j \in DOMAIN s : i # j => s[i] # s[j]
+Distinct(s) == Cardinality(Range(s)) = Len(s)
 \* duplicates removed, first occurrences kept in order
-RECURSIVE DedupFrom(_, _, _)
-DedupFrom(s, i, acc) == IF i > Len(s) THEN acc
-                        ELSE DedupFrom(s, i + 1, IF s[i] \in Range(acc) THEN acc ELSE Append(acc, s[i]))
-Dedup(s) == DedupFrom(s, 1, <<>>)
+RECURSIVE DedupFrom(_, _, _, _)
+DedupFrom(s, i, acc, seen) == IF i > Len(s) THEN acc
+                              ELSE IF s[i] \in seen THEN DedupFrom(s, i + 1, acc, seen)
+                              ELSE DedupFrom(s, i + 1, Append(acc, s[i]), seen \cup {s[i]})
+Dedup(s) == DedupFrom(s, 1, <<>>, {})
 Without(s, d) == LET F[i \in 0..Len(s)] == IF i = 0 THEN <<>> ELSE IF s[i] = d THEN F[i - 1] ELSE Append(F[i - 1], s[i])
                  IN F[Len(s)]
 
@@ -90,13 +91,14 @@ RawOf(j) == [version |-> IF j.ver = Absent THEN 1 ELSE j.ver,     \* #[serde(def
              vis |-> IF j.vis = "absent" THEN "public" ELSE j.vis]  \* #[serde(default)]
 
 \* `Delegates::new`: try_fold; a DID not seen before is refused once 255 are held
-RECURSIVE DelegatesFold(_, _, _)
-DelegatesFold(s, i, acc) ==
+\* (`seen` is the set of DIDs in `acc`: `dids.contains(&did)`)
+RECURSIVE DelegatesFold(_, _, _, _)
+DelegatesFold(s, i, acc, seen) ==
     IF i > Len(s) THEN [ok |-> TRUE, dids |-> acc]
-    ELSE IF s[i] \in Range(acc) THEN DelegatesFold(s, i + 1, acc)
+    ELSE IF s[i] \in seen THEN DelegatesFold(s, i + 1, acc, seen)
     ELSE IF Len(acc) >= MaxDelegates THEN [ok |-> FALSE, dids |-> <<>>]   \* "number of delegates cannot exceed 255"
-    ELSE DelegatesFold(s, i + 1, Append(acc, s[i]))
-DelegatesNew(s) == LET f == DelegatesFold(s, 1, <<>>) IN
+    ELSE DelegatesFold(s, i + 1, Append(acc, s[i]), seen \cup {s[i]})
+DelegatesNew(s) == LET f == DelegatesFold(s, 1, <<>>, {}) IN
                    IF ~f.ok THEN [ok |-> FALSE, err |-> "delegates", dids |-> <<>>]
                    ELSE IF f.dids = <<>> THEN [ok |-> FALSE, err |-> "delegates", dids |-> <<>>]  \* "delegate list cannot be empty"
                    ELSE [ok |-> TRUE, err |-> "", dids |-> f.dids]
